@@ -163,7 +163,7 @@ def Shared.merge (s oth : Shared) : Shared :=
 def WM.isValid (w : WM) (h : Handle) : Bool :=
   !h.isNull && h.world == w.worldId &&
   match w.slots[h.id]? with
-  | some s => s.ver == h.ver
+  | some s => s.ver == h.ver && s.idf == h.id     -- a live slot stores its own id, a free slot the next free id
   | none => false
 
 def WM.isLocked (w : WM) : Bool := w.lockDepth > 0
